@@ -19,7 +19,7 @@ type T = LTerm<U, E>;
 const NV: usize = 3; // x0, x1 query variables; x2 hidden
 
 #[derive(Clone, Debug, PartialEq, Eq, Hash, PartialOrd, Ord)]
-pub enum P { V(usize), N(isize), Nil, Cons(Box<P>, Box<P>) }
+pub enum P { V(usize), N(isize), Nil, Cons(Box<P>, Box<P>), /** a Rust tuple as a compound term */ Tup(Box<P>, Box<P>) }
 #[derive(Clone, Debug, PartialEq)]
 pub enum A { Eq(P, P), Ne(P, P), Or(Vec<A>, Vec<A>) }
 
@@ -27,6 +27,7 @@ fn list(v: Vec<P>) -> P { v.into_iter().rev().fold(P::Nil, |t, h| P::Cons(Box::n
 fn showp(p: &P) -> String {
     match p {
         P::V(i) => format!("x{}", i), P::N(k) => k.to_string(), P::Nil => "[]".into(),
+        P::Tup(a, b) => format!("<{}:{}>", showp(a), showp(b)),
         P::Cons(..) => {
             let mut s = String::from("["); let mut cur = p; let mut first = true;
             loop { match cur { P::Cons(h, t) => { if !first { s.push(','); } first = false; s += &showp(h); cur = t; } P::Nil => break, o => { s.push('|'); s += &showp(o); break; } } }
@@ -50,6 +51,7 @@ impl<'a> Ps<'a> {
     fn term(&mut self) -> P {
         match self.peek() {
             b'x' => { self.i += 1; let d = (self.peek() - b'0') as usize; self.i += 1; P::V(d) }
+            b'<' => { self.i += 1; let a = self.term(); self.eat(b':'); let b = self.term(); self.eat(b'>'); P::Tup(Box::new(a), Box::new(b)) }
             b'[' => {
                 self.i += 1;
                 let mut items = vec![]; let mut tail = P::Nil;
@@ -79,18 +81,18 @@ impl<'a> Ps<'a> {
 fn parse(s: &str) -> Vec<A> { s.split(' ').filter(|x| !x.is_empty()).map(|x| { let mut p = Ps { s: x.as_bytes(), i: 0 }; p.atom() }).collect() }
 
 // ---- the oracle: ground evaluation ----
-fn inst(p: &P, asg: &[P]) -> P { match p { P::V(i) => asg[*i].clone(), P::Cons(h, t) => P::Cons(Box::new(inst(h, asg)), Box::new(inst(t, asg))), o => o.clone() } }
+fn inst(p: &P, asg: &[P]) -> P { match p { P::V(i) => asg[*i].clone(), P::Cons(h, t) => P::Cons(Box::new(inst(h, asg)), Box::new(inst(t, asg))), P::Tup(h, t) => P::Tup(Box::new(inst(h, asg)), Box::new(inst(t, asg))), o => o.clone() } }
 fn holds(a: &A, asg: &[P]) -> bool {
     match a { A::Eq(l, r) => inst(l, asg) == inst(r, asg), A::Ne(l, r) => inst(l, asg) != inst(r, asg), A::Or(l, r) => l.iter().all(|x| holds(x, asg)) || r.iter().all(|x| holds(x, asg)) }
 }
-fn has_var(p: &P, v: usize) -> bool { match p { P::V(i) => *i == v, P::Cons(h, t) => has_var(h, v) || has_var(t, v), _ => false } }
-fn is_ground(p: &P) -> bool { match p { P::V(_) => false, P::Cons(h, t) => is_ground(h) && is_ground(t), _ => true } }
-fn subterms(p: &P, out: &mut Vec<P>) { out.push(p.clone()); if let P::Cons(h, t) = p { subterms(h, out); subterms(t, out); } }
+fn has_var(p: &P, v: usize) -> bool { match p { P::V(i) => *i == v, P::Cons(h, t) | P::Tup(h, t) => has_var(h, v) || has_var(t, v), _ => false } }
+fn is_ground(p: &P) -> bool { match p { P::V(_) => false, P::Cons(h, t) | P::Tup(h, t) => is_ground(h) && is_ground(t), _ => true } }
+fn subterms(p: &P, out: &mut Vec<P>) { out.push(p.clone()); if let P::Cons(h, t) | P::Tup(h, t) = p { subterms(h, out); subterms(t, out); } }
 fn atoms_terms(a: &A, out: &mut Vec<P>) { match a { A::Eq(l, r) | A::Ne(l, r) => { subterms(l, out); subterms(r, out); } A::Or(l, r) => { for x in l.iter().chain(r.iter()) { atoms_terms(x, out); } } } }
 
 fn universe(prog: &[A]) -> (Vec<P>, Vec<P>) {
     let n = |k| P::N(k);
-    let mut u = vec![n(1), n(2), n(7), n(8), P::Nil, list(vec![n(1)]), list(vec![n(2)]), list(vec![n(7)]), list(vec![n(1), n(2)]), list(vec![n(2), n(1)]), list(vec![n(1), n(7)]), list(vec![list(vec![n(1)])])];
+    let mut u = vec![n(1), n(2), n(7), n(8), P::Nil, list(vec![n(1)]), list(vec![n(2)]), list(vec![n(7)]), list(vec![n(1), n(2)]), list(vec![n(2), n(1)]), list(vec![n(1), n(7)]), list(vec![list(vec![n(1)])]), P::Tup(Box::new(n(1)), Box::new(n(2))), P::Tup(Box::new(n(7)), Box::new(n(1)))];
     let mut st = vec![]; for a in prog { atoms_terms(a, &mut st); }
     for t in &st { if is_ground(t) && !u.contains(t) { u.push(t.clone()); } }
     st.sort(); st.dedup();
@@ -111,7 +113,7 @@ fn solutions(prog: &[A], u: &[P], st: &[P]) -> Vec<(P, P)> {
 
 // ---- the real run ----
 thread_local! { static PROG: RefCell<Vec<A>> = RefCell::new(vec![]); }
-fn build_term(p: &P, vars: &[T]) -> T { match p { P::V(i) => vars[*i].clone(), P::N(k) => LTerm::from(*k), P::Nil => LTerm::empty_list(), P::Cons(h, t) => LTerm::cons(build_term(h, vars), build_term(t, vars)) } }
+fn build_term(p: &P, vars: &[T]) -> T { match p { P::V(i) => vars[*i].clone(), P::N(k) => LTerm::from(*k), P::Nil => LTerm::empty_list(), P::Cons(h, t) => LTerm::cons(build_term(h, vars), build_term(t, vars)), P::Tup(a, b) => (build_term(a, vars), build_term(b, vars)).into() } }
 fn build_atom(a: &A, vars: &[T]) -> Goal<U, E> {
     match a {
         A::Eq(l, r) => { let (l, r) = (build_term(l, vars), build_term(r, vars)); proto_vulcan!(l == r) }
@@ -142,6 +144,11 @@ fn to_pat(t: &T, free: &mut Vec<T>) -> Result<P, String> {
         LTermInner::Var(_, _) => { let i = match free.iter().position(|f| f == t) { Some(i) => i, None => { free.push(t.clone()); free.len() - 1 } }; Ok(P::V(i)) }
         LTermInner::Empty => Ok(P::Nil),
         LTermInner::Cons(h, tl) => Ok(P::Cons(Box::new(to_pat(h, free)?), Box::new(to_pat(tl, free)?))),
+        LTermInner::Compound(c) => {
+            let kids: Vec<&T> = c.children().filter_map(|ch| ch.as_term()).collect();
+            if kids.len() != 2 { return Err(format!("unexpected compound {}", t)); }
+            Ok(P::Tup(Box::new(to_pat(kids[0], free)?), Box::new(to_pat(kids[1], free)?)))
+        }
         _ => match t.get_number() { Some(k) => Ok(P::N(k)), None => Err(format!("unexpected term {}", t)) },
     }
 }
@@ -173,7 +180,8 @@ fn run_real(prog: &[A]) -> Result<Vec<Ans>, String> {
         let mut c03: Vec<(&'static str, String)> = vec![];
         fn vars_of(t: &T, out: &mut Vec<T>) {
             use proto_vulcan::lterm::LTermInner;
-            match t.as_ref() { LTermInner::Var(_, _) => if !out.contains(t) { out.push(t.clone()) }, LTermInner::Cons(h, tl) => { vars_of(h, out); vars_of(tl, out); } _ => {} }
+            match t.as_ref() { LTermInner::Var(_, _) => if !out.contains(t) { out.push(t.clone()) }, LTermInner::Cons(h, tl) => { vars_of(h, out); vars_of(tl, out); }
+                LTermInner::Compound(c) => { for ch in c.children() { if let Some(k) = ch.as_term() { vars_of(k, out); } } } _ => {} }
         }
         let mut term_vars: Vec<T> = vec![];
         vars_of(&r.x0.0, &mut term_vars); vars_of(&r.x1.0, &mut term_vars);
@@ -307,7 +315,7 @@ fn gen_leaf(r: &mut Rng) -> P { match r.below(6) { 0 | 1 | 2 => P::V(r.below(NV)
 fn gen_term(r: &mut Rng) -> P {
     match r.below(10) {
         // nested lists: a variable or constant at depth two
-        8 => list(vec![list(vec![gen_leaf(r)])]),
+        8 => if r.below(2) == 0 { P::Tup(Box::new(gen_leaf(r)), Box::new(gen_leaf(r))) } else { list(vec![list(vec![gen_leaf(r)])]) },
         9 => list(vec![list(vec![gen_leaf(r)]), gen_leaf(r)]),
         0 | 1 | 2 | 3 => gen_leaf(r),
         4 => list(vec![gen_leaf(r)]),
@@ -343,6 +351,11 @@ fn fixed() -> Vec<Vec<A>> {
         vec![A::Ne(v(0), n(1)), A::Ne(v(0), n(2)), A::Ne(v(1), v(0)), A::Or(vec![A::Eq(v(1), n(1))], vec![A::Eq(v(1), n(2))])],
         vec![A::Eq(v(0), list(vec![v(2), n(1)])), A::Ne(v(2), n(1)), A::Ne(v(1), v(2))],
         vec![A::Ne(P::Cons(Box::new(n(1)), Box::new(v(0))), list(vec![n(1), n(2)])), A::Eq(v(1), v(0))],
+        // a tuple (compound term): a constrained variable inside it, a disequality between tuples
+        vec![A::Eq(v(0), P::Tup(Box::new(v(2)), Box::new(n(1)))), A::Ne(v(2), n(2)), A::Eq(v(1), v(2))],
+        vec![A::Eq(v(0), P::Tup(Box::new(v(1)), Box::new(n(1)))), A::Ne(v(1), n(2))],
+        vec![A::Ne(P::Tup(Box::new(v(0)), Box::new(v(1))), P::Tup(Box::new(n(1)), Box::new(n(2)))), A::Eq(v(0), n(1))],
+        vec![A::Ne(v(0), P::Tup(Box::new(n(1)), Box::new(v(2)))), A::Eq(v(1), v(2))],
         // variables below the first level of a list
         vec![A::Ne(list(vec![list(vec![v(0)]), n(1)]), list(vec![list(vec![n(2)]), n(1)])), A::Eq(v(0), n(2))],
         vec![A::Ne(list(vec![list(vec![v(0)])]), list(vec![list(vec![v(1)])])), A::Eq(v(0), v(1))],
